@@ -36,6 +36,17 @@ CLAIMED = {
               "the call depth crosses 0. Not decided: value-level visibility of completed top-level declarations."),
         technique="interprocedural effect summaries over resolved call graph + who-may-call/who-may-write + RAII typestate (automatic-storage-only) rules",
         ref="DESIGN.md section 4 C09"),
+    "C12": dict(
+        text=("Decides the memory-safety clause ('never reads or writes outside the container') for the built-in Vector, List, "
+              "Map, Pair, String, C arrays and their range views, over every instantiation of the bootstrap templates: no std "
+              "member with an undefined-behaviour precondition is registered for script use directly; every internal use of "
+              "front/back/pop/operator[]/erase(it)/insert(it), iterator * ++ --, std::advance and built-in subscript is "
+              "dominated by a test on the operated object whose failing arm throws; positions begin()+n are used by erase "
+              "only under 0 <= n < distance and by insert only under 0 <= n <= distance (exact bounds, no off-by-one). "
+              "Not decided: step-by-step agreement of results with a list/dict/str model (holds by construction where the "
+              "std member itself is bound); structural modification during iteration is excluded by the property."),
+        technique="who-may-bind + check-dominates-use rules (structured dominance, comparison-fact extraction) over all template instantiations",
+        ref="DESIGN.md section 4 C12"),
 }
 
 NOT_YET = "check not built yet in this session (design in DESIGN.md section 4); will be claimed once its rules run clean both ways"
